@@ -9,6 +9,7 @@ import (
 	"time"
 
 	metasvc "github.com/openGemini/openGemini/app/ts-meta/meta"
+	"github.com/openGemini/openGemini/lib/tokenizer"
 	meta "github.com/openGemini/openGemini/lib/util/lifted/influx/meta"
 	"go.uber.org/zap"
 	"pgregory.net/rapid"
@@ -64,13 +65,13 @@ func BroadWeights() map[string]int {
 	return map[string]int{
 		"createdatanode": 6, "createdb": 6, "createdb_rp": 4, "createrp": 5, "updaterp": 6, "setdefaultrp": 2, "markrpdel": 2, "droprp": 2,
 		"markdbdel": 2, "dropdb": 2, "createmst": 8, "createmst_simple": 3, "altershardkey": 3, "updateschema": 5, "markmstdel": 3, "dropmst": 3,
-		"updatemst": 2, "createsg": 12, "deletesg": 5, "deleteig": 2, "prune": 6, "shardtier": 2, "indextier": 2, "sharddownsample": 2,
+		"updatemst": 2, "createsg": 12, "deletesg": 5, "deleteig": 2, "prune": 6, "shardtier": 2, "indextier": 4, "sharddownsample": 3,
 		"createuser": 3, "dropuser": 1, "updateuser": 1, "setpriv": 2, "setadmin": 1,
 		"createsqlnode": 2, "createmetanode": 2, "setmetanode": 1, "deletemetanode": 1, "deletedatanode": 1, "nodestatus": 3, "sqlnodestatus": 1,
 		"metanodestatus": 1, "removenode": 1, "segregate": 1, "nodetmpindex": 1, "verifydatanode": 1, "expandgroups": 2, "marktakeover": 1, "markbalancer": 1,
 		"updateptinfo": 3, "updateptversion": 1, "createevent": 2, "updateevent": 1, "removeevent": 1, "updatereplication": 1,
 		"createstream": 2, "dropstream": 1, "createcq": 2, "dropcq": 1, "cqreport": 1, "cqlease": 1, "createsub": 2, "dropsub": 1,
-		"createdownsample": 2, "dropdownsample": 1, "registerqueryid": 1, "insertfiles": 1, "resharding": 3, "mergeshards": 3,
+		"createdownsample": 2, "dropdownsample": 1, "registerqueryid": 1, "insertfiles": 1, "resharding": 3, "mergeshards": 5,
 	}
 }
 
@@ -495,7 +496,11 @@ func (g *Gen) gen(t *rapid.T, kind string) {
 	case "createdatanode":
 		k := g.nodeAddr(t)
 		role := pick(t, []string{"", "", "", "writer", "reader"}, "role")
-		g.emit(Op{K: kind, Name: fmt.Sprintf("127.0.0.%d:8400", k), S: fmt.Sprintf("127.0.0.%d:8401", k), S2: role})
+		op := Op{K: kind, Name: fmt.Sprintf("127.0.0.%d:8400", k), S: fmt.Sprintf("127.0.0.%d:8401", k), S2: role}
+		if az := pick(t, []string{"", "az1", "az2"}, "az"); az != "" { // [data] availability-zone of the store's config
+			op.SS = []string{az}
+		}
+		g.emit(op)
 	case "createsqlnode":
 		k := g.nodeAddr(t)
 		g.emit(Op{K: kind, Name: fmt.Sprintf("127.0.0.%d:8086", k), S: fmt.Sprintf("127.0.0.%d:8011", k)})
@@ -673,7 +678,18 @@ func (g *Gen) gen(t *rapid.T, kind string) {
 		if op.S == "range" {
 			op.N2 = 0 // the parser refuses SHARDS n for range sharding
 		}
-		if ui(t, 0, 3, "schema") == 0 {
+		// half of the commands take the complete shape of one concrete sender, so that every field of ColStoreInfo, of the index
+		// relation and of Options gets non-zero values: the SQL statement (row store / column store) or the create-logstream request
+		shape := ui(t, 0, 9, "mstShape")
+		switch {
+		case shape < 2:
+			g.sqlRowStore(t, &op, ref)
+		case shape < 4:
+			g.sqlColumnStore(t, &op)
+		case shape == 4:
+			g.logstream(t, &op, ref)
+		}
+		if op.M == nil && ui(t, 0, 3, "schema") == 0 {
 			// stmt.Tags and stmt.Fields are maps: a name occurs once per map, but may be declared as tag AND as field
 			for _, n := range []string{"t0", "t1"} {
 				if ui(t, 0, 2, "withTag") == 0 {
@@ -696,7 +712,7 @@ func (g *Gen) gen(t *rapid.T, kind string) {
 				// sharding type does not stop the re-creation
 				for _, n := range mstNames(ref.info) {
 					m := ref.info.Measurements[n]
-					if m.MarkDeleted && m.OriginName() == mst && len(m.ShardKeys) > 0 && m.ShardKeys[0].Type != op.S {
+					if m.MarkDeleted && m.OriginName() == op.Mst && len(m.ShardKeys) > 0 && m.ShardKeys[0].Type != op.S {
 						g.Excluded["recreate-measurement-with-other-shard-type"]++
 						op.S = m.ShardKeys[0].Type
 						if op.S == "range" {
@@ -751,7 +767,11 @@ func (g *Gen) gen(t *rapid.T, kind string) {
 		g.emit(Op{K: kind, DB: db, RP: rp, Mst: g.mstOf(t, ref)})
 	case "updatemst":
 		db, rp, ref := g.target(t)
-		g.emit(Op{K: kind, DB: db, RP: rp, Mst: g.mstOf(t, ref), N: pick(t, []int64{0, 1, 3, day, 3 * day}, "ttl")})
+		op := Op{K: kind, DB: db, RP: rp, Mst: g.mstOf(t, ref), N: pick(t, []int64{0, 1, 3, day, 3 * day}, "ttl")}
+		if rapid.Bool().Draw(t, "fullOptions") { // update-logstream request: the body is decoded into an Options WITHOUT defaults, then validated
+			op.O = g.optSpec(t, false)
+		}
+		g.emit(op)
 	case "dropmst":
 		// ts-meta sends the versioned name of a measurement that is marked for deletion (or again after a retry)
 		type c struct{ db, rp, m string }
@@ -781,7 +801,15 @@ func (g *Gen) gen(t *rapid.T, kind string) {
 		} else {
 			eng = int64(ui(t, 0, 4, "engine") / 4)
 		}
-		g.emit(Op{K: kind, DB: db, RP: rp, N: g.timestamp(t), ID: uint64(pick(t, []int{1, 1, 1, 2}, "tier")), N2: eng, ID2: uint64(ui(t, 0, 5, "ver") / 5)})
+		ts := g.timestamp(t)
+		if ref != nil && ref.info.ShardMergeDuration != 0 && len(ref.info.ShardGroups) > 0 && rapid.Bool().Draw(t, "adjacent") {
+			// a policy that merges shards: write right behind the newest group, so that a later merge report finds time-consecutive groups
+			// (a group that ends at the end of time has no successor: the largest timestamp a client can write is MaxInt64-1)
+			if e := ref.info.ShardGroups[len(ref.info.ShardGroups)-1].EndTime.UnixNano(); e < math.MaxInt64-1 {
+				ts = e
+			}
+		}
+		g.emit(Op{K: kind, DB: db, RP: rp, N: ts, ID: uint64(pick(t, []int{1, 1, 1, 2}, "tier")), N2: eng, ID2: uint64(ui(t, 0, 5, "ver") / 5)})
 	case "deletesg":
 		gs := g.groups()
 		var op Op
@@ -917,7 +945,11 @@ func (g *Gen) gen(t *rapid.T, kind string) {
 		}
 		if len(cands) > 0 && ui(t, 0, 9, "existing") < 8 {
 			x := pick(t, cands, "ref")
-			g.emit(Op{K: kind, DB: x.db, RP: x.rp, ID: x.id, N: int64(ui(t, 1, 4, "tier"))})
+			tier := int64(ui(t, 1, 4, "tier"))
+			if kind == "indextier" && rapid.Bool().Draw(t, "cold") {
+				tier = 3 // util.Cold: recorded in the index group's replica clear info
+			}
+			g.emit(Op{K: kind, DB: x.db, RP: x.rp, ID: x.id, N: tier})
 		} else {
 			db, rp, _ := g.target(t)
 			g.emit(Op{K: kind, DB: db, RP: rp, ID: uint64(ui(t, 0, 40, "id")), N: int64(ui(t, 1, 4, "tier"))})
@@ -1010,6 +1042,9 @@ func (g *Gen) gen(t *rapid.T, kind string) {
 				ts, eng := int64(0), int64(0)
 				if len(gs) > 0 {
 					ts, eng = gs[len(gs)-1].EndTime.UnixNano(), int64(gs[len(gs)-1].EngineType)
+					if ts >= math.MaxInt64-1 { // the newest group ends at the end of time: no timestamp behind it
+						continue
+					}
 				} else {
 					eng = int64(r.info.Measurements[mstNames(r.info)[0]].EngineType)
 				}
@@ -1108,8 +1143,22 @@ func (g *Gen) gen(t *rapid.T, kind string) {
 					opID = uint64(ui(t, 0, 5, "opid"))
 				}
 			}
-			g.emit(Op{K: kind, DB: db, N: int64(p.PtId), ID: p.Owner.NodeID, N2: int64(p.Status), Ns: []int64{evType, cur, pre, int64(p.Ver)}, ID2: p.Owner.NodeID,
-				IDs: []uint64{g.nodeID(t, d.DataNodes), opID}, B: evType == 2, B2: d.Databases[db].EnableTagArray})
+			op := Op{K: kind, DB: db, N: int64(p.PtId), ID: p.Owner.NodeID, N2: int64(p.Status), Ns: []int64{evType, cur, pre, int64(p.Ver)}, ID2: p.Owner.NodeID,
+				IDs: []uint64{g.nodeID(t, d.DataNodes), opID}, B: evType == 2, B2: d.Databases[db].EnableTagArray}
+			// ts-meta attaches the shards of the partition (balance_store.go: Data.GetShardDurationsByDbPt) to the event's partition info
+			sh := d.GetShardDurationsByDbPt(db, p.PtId)
+			ids := make([]uint64, 0, len(sh))
+			for id := range sh {
+				ids = append(ids, id)
+			}
+			sort.Slice(ids, func(i, j int) bool { return ids[i] < ids[j] })
+			for _, id := range ids {
+				x := sh[id]
+				op.Sh = append(op.Sh, ShardDur{ID: id, SG: x.Ident.ShardGroupID, RP: x.Ident.Policy, Typ: x.Ident.ShardType, DSL: x.Ident.DownSampleLevel, DSID: x.Ident.DownSampleID,
+					RO: x.Ident.ReadOnly, Eng: x.Ident.EngineType, Tier: x.DurationInfo.Tier, TierDur: int64(x.DurationInfo.TierDuration), Dur: int64(x.DurationInfo.Duration),
+					Merge: int64(x.DurationInfo.MergeDuration)})
+			}
+			g.emit(op)
 		}
 	case "removeevent":
 		var ids []string
@@ -1132,17 +1181,23 @@ func (g *Gen) gen(t *rapid.T, kind string) {
 		}
 		n := ui(t, 1, 2, "ncalls")
 		for i := 0; i < n; i++ {
-			op.F = append(op.F, Field{N: fmt.Sprintf("f%d", i), T: int32(ui(t, 0, 3, "call"))})
+			f := Field{N: fmt.Sprintf("f%d", i), T: int32(ui(t, 0, 3, "call"))} // sorted by field, as NewStreamInfo leaves them
+			if ui(t, 0, 3, "alias") == 0 {
+				f.E = int32(ui(t, 1, 3, "aliasNo")) // ... AS a<k>
+			}
+			op.F = append(op.F, f)
 		}
 		// every field of the catalogue object gets a non-zero value in some cases (a field forgotten by clone / marshal is only
-		// visible when it is set): the stream's condition and its select-all flag; a filter-only stream has no calls and no dims
-		switch ui(t, 0, 3, "streamKind") {
-		case 0:
-			op.S = pick(t, []string{"f0 > 1", "level = 'error'"}, "cond")
-		case 1:
-			op.S = pick(t, []string{"f0 > 1", "level = 'error'"}, "cond")
-			op.F, op.SS, op.Ns[0] = nil, op.SS[:3], 0
+		// visible when it is set). The statement executor builds two shapes: an aggregate stream (NewStreamInfo: calls, dims,
+		// interval, delay; never a condition) and, for a SELECT without GROUP BY, a filter stream (NewStreamInfoNoCall: the condition,
+		// the select-all flag, plain columns as calls without a call name; no dims, interval or delay)
+		if ui(t, 0, 9, "streamKind") < 4 {
+			op.S = pick(t, []string{"f0 > 1", "level = 'error'", "f0 > 1 AND t0 = 'a'"}, "cond")
+			op.F, op.SS, op.Ns = nil, op.SS[:3], []int64{0, 0}
 			op.N = int64(ui(t, 0, 1, "selectAll"))
+			for i, n := 0, ui(t, 1, 3, "ncols"); i < n; i++ {
+				op.F = append(op.F, Field{N: []string{"f0", "f1", "t0"}[i], T: -1})
+			}
 		}
 		g.emit(op)
 	case "dropstream":
@@ -1156,10 +1211,26 @@ func (g *Gen) gen(t *rapid.T, kind string) {
 	case "dropcq":
 		g.emit(Op{K: kind, DB: g.anyDB(t), Name: pick(t, []string{"cq0", "cq1", "cq2"}, "cq")})
 	case "cqreport":
-		g.emit(Op{K: kind, SS: []string{pick(t, []string{"cq0", "cq1", "cq2"}, "cq")}, Ns: []int64{int64(ui(t, 1, 5, "run")) * 1700000000 * int64(time.Second) / 5}})
+		// the sql node that holds the lease reports the queries it ran (names it read from the catalogue; sometimes one dropped meanwhile)
+		var ex []string
+		for _, dbn := range g.dbNames() {
+			for n := range d.Databases[dbn].ContinuousQueries {
+				ex = append(ex, n)
+			}
+		}
+		op := Op{K: kind}
+		for i, n := 0, ui(t, 1, 2, "ncq"); i < n; i++ {
+			name := g.existingOr(t, ex, []string{"cq0", "cq1", "cq2"}, "cq")
+			if i > 0 && name == op.SS[0] {
+				continue
+			}
+			op.SS = append(op.SS, name)
+			op.Ns = append(op.Ns, int64(ui(t, 1, 5, "run"))*1700000000*int64(time.Second)/5)
+		}
+		g.emit(op)
 	case "createsub":
 		db, rp, _ := g.target(t)
-		g.emit(Op{K: kind, DB: db, RP: rp, Name: pick(t, []string{"sub0", "sub1"}, "sub"), S: pick(t, []string{"ALL", "ANY"}, "mode"), SS: []string{"http://127.0.0.1:9999"}})
+		g.emit(Op{K: kind, DB: db, RP: rp, Name: pick(t, []string{"sub0", "sub1"}, "sub"), S: pick(t, []string{"ALL", "ANY"}, "mode"), SS: g.destinations(t)})
 	case "dropsub":
 		db, rp, _ := g.target(t)
 		switch ui(t, 0, 9, "dropSubShape") {
@@ -1197,15 +1268,38 @@ func (g *Gen) gen(t *rapid.T, kind string) {
 			if rapid.Bool().Draw(t, "ownDur") {
 				dur = time.Duration(pick(t, []int64{day, 2 * day, 30 * day}, "dsDur"))
 			}
-			s1 := int64(r.info.ShardGroupDuration) * int64(ui(t, 1, 2, "s1"))
-			info := &meta.DownSamplePolicyInfo{Duration: dur, DownSamplePolicies: []*meta.DownSamplePolicy{meta.NewDownSamplePolicy(time.Duration(s1), time.Minute)},
-				Calls: []*meta.DownSampleOperators{{AggOps: []string{"sum"}, DataType: 1}}}
+			// CREATE DOWNSAMPLE ON rp (float(sum,max), integer(first)) WITH DURATION d SAMPLEINTERVAL(s1,s2) TIMEINTERVAL(t1,t2): up to
+			// three levels (sample and time intervals strictly increasing, each time interval a multiple of the one before) and up to
+			// three per-type operator lists
+			var ns []int64
+			si, ti := int64(r.info.ShardGroupDuration)*int64(ui(t, 1, 2, "s1")), int64(time.Minute)*int64(pick(t, []int{1, 5}, "t1"))
+			info := &meta.DownSamplePolicyInfo{Duration: dur}
+			for i, n := 0, ui(t, 1, 3, "dsLevels"); i < n; i++ {
+				if i > 0 {
+					si, ti = si*int64(ui(t, 2, 3, "sMul")), ti*int64(ui(t, 2, 3, "tMul"))
+				}
+				ns = append(ns, si, ti)
+				info.DownSamplePolicies = append(info.DownSamplePolicies, meta.NewDownSamplePolicy(time.Duration(si), time.Duration(ti)))
+			}
+			var calls []Field
+			aggs := []string{"first", "last", "min", "max", "sum", "count", "mean"}
+			for i, n := 0, ui(t, 1, 3, "dsCalls"); i < n; i++ {
+				ops := ""
+				for j, m := 0, ui(t, 1, 3, "dsOps"); j < m; j++ {
+					if j > 0 {
+						ops += ","
+					}
+					ops += pick(t, aggs, "agg")
+				}
+				calls = append(calls, Field{N: ops, T: int32(ui(t, 1, 4, "dt"))})
+				info.Calls = append(info.Calls, &meta.DownSampleOperators{AggOps: []string{ops}, DataType: int64(calls[i].T)})
+			}
 			if info.Check(r.info) != nil {
 				g.Excluded["client-rejects-downsample"]++
 				continue
 			}
 			d64 := int64(info.Duration)
-			g.emit(Op{K: kind, DB: r.db, RP: r.rp, Dur: &d64, Ns: []int64{s1, int64(time.Minute)}, F: []Field{{N: pick(t, []string{"sum", "max", "min"}, "agg"), T: int32(ui(t, 1, 3, "dt"))}}})
+			g.emit(Op{K: kind, DB: r.db, RP: r.rp, Dur: &d64, Ns: ns, F: calls})
 			return
 		}
 	case "dropdownsample":
@@ -1225,6 +1319,132 @@ func (g *Gen) gen(t *rapid.T, kind string) {
 	default:
 		panic("harness: no generator for kind " + kind)
 	}
+}
+
+// sqlRowStore shapes op like CREATE MEASUREMENT m (...) WITH ENGINETYPE = tsstore INDEXTYPE text INDEXLIST .. field INDEXLIST .. SHARDKEY .. TTL ..
+// (coordinator executeCreateMeasurementStatement): empty ColStoreInfo, index relation and Options{Ttl} are always sent.
+func (g *Gen) sqlRowStore(t *rapid.T, op *Op, ref *rpRef) {
+	op.N, op.B, op.B2 = 0, false, false
+	m := &MstSpec{Shape: "sql"}
+	for i, n := 0, ui(t, 0, 2, "nIdx"); i < n; i++ {
+		if rapid.Bool().Draw(t, "fieldIdx") {
+			m.IdxT, m.IdxL = append(m.IdxT, "field"), append(m.IdxL, []string{pick(t, []string{"f0", "f1"}, "idxCol")}) // one column per field index
+		} else {
+			m.IdxT, m.IdxL = append(m.IdxT, "text"), append(m.IdxL, [][]string{{"f2"}, {"f1", "f2"}}[ui(t, 0, 1, "textCols")])
+		}
+	}
+	// the client refuses a TTL above the policy's duration (a policy without expiry has duration 0)
+	if ref != nil && ref.info.Duration > 0 && ui(t, 0, 2, "ttl") == 0 {
+		m.TTL = pick(t, []int64{hour, int64(ref.info.Duration)}, "ttlVal")
+		if m.TTL > int64(ref.info.Duration) {
+			m.TTL = int64(ref.info.Duration)
+		}
+	}
+	if ui(t, 0, 2, "schema") == 0 {
+		for _, n := range []string{"t0", "t1"} {
+			if ui(t, 0, 1, "withTag") == 0 {
+				op.F = append(op.F, Field{N: n, T: 6})
+			}
+		}
+		for _, n := range []string{"f0", "f1", "f2"} {
+			if ui(t, 0, 1, "withField") == 0 {
+				op.F = append(op.F, Field{N: n, T: int32(ui(t, 1, 4, "ftype"))})
+			}
+		}
+	}
+	op.M = m
+}
+
+// sqlColumnStore shapes op like CREATE MEASUREMENT m (t0 TAG, f0 FLOAT64 ..) WITH ENGINETYPE = columnstore INDEXTYPE timecluster(1h) bloomfilter INDEXLIST ..
+// SHARDKEY .. PRIMARYKEY .. SORTKEY .. PROPERTY k=v COMPACT block: the parser wants every key column declared (or "time"), the
+// primary key a prefix of the sort key, the shard key and the indexed columns among the declared columns.
+func (g *Gen) sqlColumnStore(t *rapid.T, op *Op) {
+	op.N, op.B, op.B2 = 1, false, false
+	m := &MstSpec{Shape: "sql", Compact: pick(t, []string{"row", "block"}, "compact")}
+	cols := []string{"t0"}
+	op.F = []Field{{N: "t0", T: 6}}
+	if rapid.Bool().Draw(t, "t1") {
+		cols, op.F = append(cols, "t1"), append(op.F, Field{N: "t1", T: 6})
+	}
+	for _, n := range []string{"f0", "f1"} {
+		if ui(t, 0, 2, "withField") > 0 {
+			cols, op.F = append(cols, n), append(op.F, Field{N: n, T: int32(ui(t, 1, 4, "ftype"))})
+		}
+	}
+	keyCols := append([]string{"time"}, cols...)
+	used := map[string]bool{}
+	for i, n := 0, ui(t, 0, 3, "nSort"); i < n; i++ {
+		c := pick(t, keyCols, "sortCol")
+		if !used[c] {
+			used[c] = true
+			m.SK = append(m.SK, c)
+		}
+	}
+	if len(m.SK) > 0 {
+		m.PK = m.SK[:ui(t, 1, len(m.SK), "nPrimary")] // no PRIMARYKEY clause = the sort key
+	}
+	// shard key among the declared columns, sorted
+	op.SS = nil
+	if rapid.Bool().Draw(t, "cssk") {
+		op.SS = []string{pick(t, cols, "sk")}
+	}
+	if rapid.Bool().Draw(t, "timecluster") {
+		m.TCDur = pick(t, []int64{hour, day, 10 * int64(time.Minute)}, "tcDur")
+		m.IdxT, m.IdxL = append(m.IdxT, "timecluster"), append(m.IdxL, []string{"time"})
+	}
+	for i, n := 0, ui(t, 0, 2, "nIdx"); i < n; i++ {
+		types := []string{"bloomfilter", "minmax", "bloomfilter_ip"}
+		if m.TCDur == 0 {
+			types = append(types, "text")
+		}
+		m.IdxT, m.IdxL = append(m.IdxT, pick(t, types, "idxType")), append(m.IdxL, []string{pick(t, cols, "idxCol")})
+	}
+	for i, n := 0, ui(t, 0, 2, "nProp"); i < n; i++ {
+		m.PropK, m.PropV = append(m.PropK, fmt.Sprintf("p%d", i)), append(m.PropV, pick(t, []string{"v", "7"}, "propVal"))
+	}
+	op.M = m
+}
+
+// optSpec draws a logstream option set the way validateLogstreamOptions leaves it: TTL in days (0 = keep for ever), delimiters
+// defaulted; a create request starts from InitDefault (thresholds 1), an update request from the zero value.
+func (g *Gen) optSpec(t *rapid.T, create bool) *OptSpec {
+	lo := 0
+	if create {
+		lo = 1
+	}
+	return &OptSpec{CI: rapid.Bool().Draw(t, "ci"), AM: rapid.Bool().Draw(t, "am"), WT: ui(t, lo, 3, "wt"), RT: ui(t, lo, 3, "rt"), SC: ui(t, lo, 3, "sc"),
+		Split:    pick(t, []string{tokenizer.CONTENT_SPLITTER, ",;", " |"}, "split"),
+		TagSplit: pick(t, []string{tokenizer.TAGS_SPLITTER_BEFORE, ";"}, "tagSplit")}
+}
+
+// logstream shapes op like the create-logstream request (httpd serveCreateLogstream): policy and measurement carry the logstream's
+// name, column store, hash sharding without key, the complete option set.
+func (g *Gen) logstream(t *rapid.T, op *Op, ref *rpRef) {
+	op.Mst, op.S, op.SS, op.N, op.N2, op.B, op.B2 = op.RP, "hash", nil, 1, 0, false, false
+	op.O = g.optSpec(t, true)
+	// the handler creates the policy with duration = TTL days first; the client refuses a TTL above the policy's duration
+	if ref != nil && ref.info.Duration >= time.Duration(day) {
+		op.O.Ttl = int64(ref.info.Duration / time.Duration(day))
+	}
+	op.M = &MstSpec{Shape: "logstream"}
+}
+
+var subDests = []string{"http://127.0.0.1:9999", "http://127.0.0.2:9999", "https://127.0.0.3:9443"}
+
+// destinations draws one to three distinct subscription destinations.
+func (g *Gen) destinations(t *rapid.T) []string {
+	out := []string{pick(t, subDests, "dest")}
+	for i, n := 0, ui(t, 0, 2, "moreDests"); i < n; i++ {
+		d := pick(t, subDests, "dest")
+		dup := false
+		for _, x := range out {
+			dup = dup || x == d
+		}
+		if !dup {
+			out = append(out, d)
+		}
+	}
+	return out
 }
 
 // mergeDur makes shard-merge policies reachable: CheckSpecValid accepts a merge duration only when it is a multiple of the shard
